@@ -166,6 +166,8 @@ def run_grammar(case):
         raise Violation("roundtrip", f"{tname}: implemented type decoded as GenericRdata", "generic:" + tname)
     if "unknown" in flags and type(rd) is not dns.rdata.GenericRdata:
         raise HarnessError(f"type {rdtype} is not unknown")
+    if "text-option-trailing-nul" in flags:
+        classes.append("text-option-trailing-nul")
     if "normalizing" in flags:
         classes.append("normalizing")
     elif w1 != w:
@@ -393,7 +395,7 @@ def parts(tier):
     per_type = {"quick": 40, "thorough": 400}[tier]
     req = {("acc:" + t): per_type for t in R.ALL_TYPES}
     req.update({("relativity-checked:" + t): 5 for t in R.NAME_TYPES if t not in ("TSIG", "TKEY", "CH_A") and t in R.GRAMMARS})
-    req.update({"with-origin": 100, "relativized-names": 20, "origin-exact-fit": 3000, "origin-too-long-refused": 2000, "relativity-checked": 200, "other-class-first": 1000, "normalizing": 20})
+    req.update({"with-origin": 100, "relativized-names": 20, "origin-exact-fit": 3000, "origin-too-long-refused": 2000, "relativity-checked": 200, "other-class-first": 1000, "normalizing": 20, "text-option-trailing-nul": 20})
     n_types = len(R.ALL_TYPES)
     return [
         Part("grammar", run_grammar, strategy=grammar_cases(R.ALL_TYPES),
